@@ -322,3 +322,118 @@ Example C15_bgp_counters_example :
     [(∅, evs); (∅, [BgpSessionModel.BNegotiate; BgpSessionModel.BTickErr 0]);
      (∅, [BgpSessionModel.BReconf BgpSessionModel.BRGone]); (∅, [BgpSessionModel.BMsgLost true])] = BgpSessionModel.MkMet 2 2.
 Proof. exact BgpSessionProofs.bgp_counters_example. Qed.
+
+(* ================= the RIB unit's own metrics (src/units/rib_unit/metrics.rs, status_reporter.rs, unit.rs insert_payload) =================
+   RibModel.ribm_run: the store of C01-C03 with the unit's counters carried along; RibModel.rtrace: the history as a reader
+   classifies it, one class per exploded route (new prefix / prefix already held / withdrawal of a held prefix / of a prefix not held). *)
+From RV Require Rib.RibMetricsProofs.
+From Coq Require Import ZArith.
+
+(* the counters run over the very store of C01-C03 *)
+Theorem C15_rib_counters_same_store : forall us, (ribm_run us).1 = rib_run us.
+Proof. exact RibMetricsProofs.ribm_run_rib. Qed.
+Print Assumptions C15_rib_counters_same_store.
+
+(* for every update history each counter is the number of matching routes of the history; routes_announced (a wrapping usize,
+   read as a two's-complement number) is new prefixes minus withdrawals of held prefixes; the counter of withdrawals without an
+   announcement is never written *)
+Theorem C15_rib_counters_count : forall us,
+  let m := (ribm_run us).2 in let t := rtrace us in
+  rm_unique m = rcount RNew t /\ rm_items m = rcount RNew t /\ rm_hard m = rcount RWMiss t /\
+  rm_announced m = (Z.of_N (rcount RNew t) - Z.of_N (rcount RWHeld t))%Z /\
+  rm_modified m = rcount RMod t + rcount RWHeld t /\ rm_withdrawn m = rcount RWHeld t /\ rm_wd_noann m = 0.
+Proof. exact RibMetricsProofs.rib_counters_count. Qed.
+Print Assumptions C15_rib_counters_count.
+
+(* num_unique_prefixes and num_items both are the number of (family, prefix) pairs the store holds a record for *)
+Theorem C15_rib_gauges_are_sizes : forall us,
+  let s := ribm_run us in
+  rm_unique s.2 = N.of_nat (size (rib_pfxs s.1)) /\ rm_items s.2 = N.of_nat (size (rib_pfxs s.1)).
+Proof. exact RibMetricsProofs.rib_gauges_are_sizes. Qed.
+Print Assumptions C15_rib_gauges_are_sizes.
+
+(* every counter but routes_announced only grows, update by update *)
+Theorem C15_rib_counters_monotone : forall us u,
+  let m := (ribm_run us).2 in let m' := (ribm_run (us ++ [u])).2 in
+  rm_unique m <= rm_unique m' /\ rm_items m <= rm_items m' /\ rm_hard m <= rm_hard m' /\
+  rm_modified m <= rm_modified m' /\ rm_withdrawn m <= rm_withdrawn m' /\ rm_wd_noann m <= rm_wd_noann m'.
+Proof. exact RibMetricsProofs.ribm_run_monotone. Qed.
+Print Assumptions C15_rib_counters_monotone.
+
+(* known finding C15-6, four faces. num_items ("items (e.g. routes) stored") counts prefixes: two ids, one prefix, two records, 1 *)
+Theorem C15_rib_items_not_routes_refuted :
+  rm_items (ribm_run RibMetricsProofs.items_witness).2 = 1 /\ size (recs (ribm_run RibMetricsProofs.items_witness).1) = 2%nat.
+Proof. exact RibMetricsProofs.rib_items_not_routes_witness. Qed.
+Print Assumptions C15_rib_items_not_routes_refuted.
+
+(* num_routes_announced: a route announced once and withdrawn twice leaves -1, rendered as 18446744073709551615 *)
+Theorem C15_rib_announced_wraps_refuted :
+  rm_announced (ribm_run RibMetricsProofs.announced_witness).2 = (-1)%Z /\ rib_n_active (ribm_run RibMetricsProofs.announced_witness).1 = 0.
+Proof. exact RibMetricsProofs.rib_announced_wraps_witness. Qed.
+Print Assumptions C15_rib_announced_wraps_refuted.
+
+(* ... and a session-wide withdrawal does not touch it *)
+Theorem C15_rib_announced_ignores_session_down_refuted :
+  rm_announced (ribm_run RibMetricsProofs.down_witness).2 = 1%Z /\ rib_n_active (ribm_run RibMetricsProofs.down_witness).1 = 0.
+Proof. exact RibMetricsProofs.rib_announced_ignores_session_down_witness. Qed.
+Print Assumptions C15_rib_announced_ignores_session_down_refuted.
+
+(* a withdrawal of a never announced route is counted as a hard insert failure; the counter made for it stays 0 *)
+Theorem C15_rib_wd_without_announcement_never_written_refuted :
+  rm_wd_noann (ribm_run RibMetricsProofs.wd_witness).2 = 0 /\ rm_hard (ribm_run RibMetricsProofs.wd_witness).2 = 1 /\
+  rcount_wd_norec (rtrace RibMetricsProofs.wd_witness) = 1.
+Proof. exact RibMetricsProofs.rib_wd_without_announcement_witness. Qed.
+Print Assumptions C15_rib_wd_without_announcement_never_written_refuted.
+
+(* the strongest agreement that does hold for num_items: it is the number of stored routes as long as no prefix is held for two ids *)
+Theorem C15_rib_items_partial : forall us,
+  let s := ribm_run us in
+  (forall k k', is_Some (recs s.1 !! k) -> is_Some (recs s.1 !! k') -> k.1 = k'.1 -> k = k') ->
+  rm_items s.2 = N.of_nat (size (recs s.1)).
+Proof. exact RibMetricsProofs.rib_items_partial. Qed.
+Print Assumptions C15_rib_items_partial.
+
+(* two ids and two prefixes, an update of a held prefix, a withdrawal, a withdrawal of a prefix nobody holds, a session loss *)
+Example C15_rib_counters_example :
+  (ribm_run [UBulk [MkPay (0, 1, 7) true 1; MkPay (0, 2, 7) true 1]; UBulk [MkPay (0, 1, 8) true 2]; UBulk [MkPay (0, 2, 7) false 0];
+             UBulk [MkPay (0, 3, 7) false 0]; UWithdraw 8 None]).2 = MkRmet 2 2 1 1%Z 2 1 0.
+Proof. exact RibMetricsProofs.rib_counters_example. Qed.
+
+(* ================= the accept loops: connection_accepted_count of bmp-tcp-in and bgp-tcp-in =================
+   status_reporter.rs listener_connection_accepted, called by the accept loop of unit.rs for every connection the listener hands
+   out; over the pipeline models of E2e/E2eModel.v (uc_step: BMP routers, b_step: BGP speakers; read by the e2e engine, ops M / BM) *)
+From RV Require E2e.E2eModel E2e.E2eProofs E2e.E2eAcceptProofs.
+
+(* bmp-tcp-in: for every history the counter has grown by the number of connections made *)
+Theorem C15_bmp_accepted_counts_connections : forall l u,
+  E2eModel.uc_accepted (E2eModel.uc_run u l) = E2eModel.uc_accepted u + E2eAcceptProofs.uc_accept_count u l.
+Proof. exact E2eAcceptProofs.uc_accepted_counts_connections. Qed.
+Print Assumptions C15_bmp_accepted_counts_connections.
+
+(* ... and accepted - lost is the number of routers connected, at every point *)
+Theorem C15_bmp_connected_is_accepted_minus_lost : forall l,
+  E2eModel.uc_connected_spec (E2eModel.uc_run E2eModel.uc_init l) =
+  E2eModel.uc_accepted (E2eModel.uc_run E2eModel.uc_init l) - E2eModel.uc_lost (E2eModel.uc_run E2eModel.uc_init l).
+Proof. exact E2eProofs.uc_connected_is_accepted_minus_lost. Qed.
+Print Assumptions C15_bmp_connected_is_accepted_minus_lost.
+
+(* bgp-tcp-in: for every history of the running pipeline (traffic, edits of the peers, reloads on every schedule) the counter has
+   grown by the number of connections made - whether or not the peer was configured (the handler of an unknown peer is dropped
+   after the accept) *)
+Theorem C15_bgp_accepted_counts_connections : forall h st,
+  E2eModel.bs_accepted (E2eModel.b_run st h) = E2eModel.bs_accepted st + E2eAcceptProofs.b_accept_count st h.
+Proof. exact E2eAcceptProofs.b_accepted_counts_connections. Qed.
+Print Assumptions C15_bgp_accepted_counts_connections.
+
+Theorem C15_accepted_monotone : forall l o u h bo st,
+  E2eModel.uc_accepted (E2eModel.uc_run u l) <= E2eModel.uc_accepted (E2eModel.uc_run u (l ++ [o])) /\
+  E2eModel.bs_accepted (E2eModel.b_run st h) <= E2eModel.bs_accepted (E2eModel.b_run st (h ++ [bo])).
+Proof. exact E2eAcceptProofs.accepted_monotone. Qed.
+Print Assumptions C15_accepted_monotone.
+
+(* a configured peer, an unconfigured one, a second connection of a connected address (the engine makes none), a close, the
+   address again: three connections accepted *)
+Example C15_bgp_accepted_example : forall s0 n0,
+  E2eAcceptProofs.b_accept_count (E2eModel.b_init s0 n0)
+    [E2eModel.BOpen 0; E2eModel.BOpen 3; E2eModel.BOpen 0; E2eModel.BClose 0; E2eModel.BOpen 0; E2eModel.BOpen 9] = 3.
+Proof. exact E2eAcceptProofs.b_accept_example. Qed.
